@@ -3,10 +3,12 @@ counterexamples natively, write evidence.  See /verif/DESIGN.md section 6."""
 import json, os, re, signal, subprocess, sys, threading, time, queue, shutil
 
 VERIF = os.path.dirname(os.path.dirname(os.path.abspath(__file__)))
-HARNESS_DIR = os.path.join(VERIF, "harness")
-WORK = os.path.join(VERIF, "work")
-KT = os.path.join(VERIF, ".kt")
-REPO = "/repo"
+# Development aid (seed sweeps in scratch copies): the registered commands never set these, so the
+# checks run from /verif/harness against /repo itself.
+HARNESS_DIR = os.environ.get("VERIF_HARNESS_DIR") or os.path.join(VERIF, "harness")
+WORK = os.environ.get("VERIF_WORK") or os.path.join(VERIF, "work")
+KT = os.environ.get("VERIF_KT") or os.path.join(VERIF, ".kt")
+REPO = os.environ.get("VERIF_REPO") or "/repo"
 
 BUILD_FLAGS = {
     "small": "--cfg zlink_verif --cfg zlink_verif_small",     # BUFFER_SIZE=8, MAX_BUFFER_SIZE=32
